@@ -156,9 +156,11 @@ def collect_loops(chk, eng, g, prefix):
         for v in ("remaining_time", "additional_op", "op_size"):
             st.env.pop(v, None)
 
-    eng.loop_handlers[(COLLECT, "while", 0)] = LoopContract(chk, f"{prefix}.collect.loop_overflow_drain", inv0, havoc0, abstract=to_rlist, desc="batch is the run [d, d+n) taken from the overflow queue, n <= 1, sizes accounted")
+    eng.loop_handlers[(COLLECT, "while", 0)] = LoopContract(chk, f"{prefix}.collect.loop_overflow_drain", inv0, havoc0, abstract=to_rlist, desc="batch is the run [d, d+n) taken from the overflow queue, n <= 1, sizes accounted",
+                                                             variant=lambda e_, s_: q(s_, g["overflow"])["len"], variant_desc="length of the overflow queue (only this thread writes it)")
     eng.loop_handlers[(COLLECT, "while", 1)] = LoopContract(chk, f"{prefix}.collect.loop_first_element", inv1, havoc1, abstract=abstract1, desc="nothing is taken until the first element arrives")
-    eng.loop_handlers[(COLLECT, "while", 2)] = LoopContract(chk, f"{prefix}.collect.loop_window", inv2, havoc2, abstract=abstract2, desc="batch is the contiguous run ending where the main queue starts; size and count limits hold")
+    eng.loop_handlers[(COLLECT, "while", 2)] = LoopContract(chk, f"{prefix}.collect.loop_window", inv2, havoc2, abstract=abstract2, desc="batch is the contiguous run ending where the main queue starts; size and count limits hold",
+                                                             variant=lambda e_, s_: max_ops - rl(s_, "batch")["len"], variant_desc="room left in the batch: every iteration that continues appends one update")
 
 
 def collect_post(st, g, batch_ref):
